@@ -1,14 +1,21 @@
 from runner import Property, Engine
 import stressgen
 import evupdgen
+import evgen
 
 PROP = Property(
     pid="C11",
     properties_v=["Properties/Properties_C11.v", "Properties/Properties_C11_evupd.v", "Properties/Properties_C11_reinit.v"],
-    coq_targets=["Extract/Extract_Locks.vo", "Extract/Extract_EvUpdates.vo"],
+    coq_targets=["Extract/Extract_Locks.vo", "Extract/Extract_EvUpdates.vo", "Extract/Extract_EventLoop.vo"],
     engines=[Engine(name="tstress", c_srcs=["harness/thread_stress_drv.c"], variant="tsan",
                     ml_srcs=["ocaml/gen/LocksModel.ml", "ocaml/tstress_drv.ml"],
                     gen=stressgen.gen, n_quick=18, n_thorough=400, sep=None, timeout=3000, search_factor=1, per_case=True),
+             # C07's event-thread engine (real event thread, mock server): here for the queue-wait
+             # clause (a waiter woken by the notification must look at the queue again) and the
+             # per-request guarantees under the event thread
+             Engine(name="evthread", c_srcs=["harness/evthread_drv.c"],
+                    ml_srcs=["ocaml/gen/EventLoopModel.ml", "ocaml/evthread_drv.ml"], ml_packages=["str"],
+                    gen=evgen.gen, n_quick=30, n_thorough=300, sep=None, timeout=3000, search_factor=1, per_case=True),
              Engine(name="evupd", c_srcs=["harness/evupd_drv.c"],
                     ml_srcs=["ocaml/gen/EvUpdatesModel.ml", "ocaml/evupd_drv.ml"],
                     gen=evupdgen.gen, n_quick=3000, n_thorough=200000, sep=";")],
@@ -17,7 +24,7 @@ PROP = Property(
                   "whitelists in coq/Core/LockDiscipline.v (exclusive-by-contract functions, immutable-after-init fields, stateless callees)",
                   "harness/thread_stress_drv.c + ThreadSanitizer (search for a concrete failing schedule; not a proof)",
                   "harness/evupd_drv.c: the library's ares_event_thread.c compiled into the driver, recording event backend; ocaml/evupd_drv.ml (monitor on the implementation's trace)",
-                  "gen/regen.d/reinit_facts.py: textual reading of ares_reinit_thread (actions in source order; callees that take the channel lock found by text search) and of the statement order in ares_reinit",
+                  "gen/regen.d/wait_facts.py: textual reading of the loop of ares_queue_wait_empty (condition, exits with their guards, waits)", "gen/regen.d/reinit_facts.py: textual reading of ares_reinit_thread (actions in source order; callees that take the channel lock found by text search) and of the statement order in ares_reinit",
                   "extraction (ExtrOcamlBasic) + OCaml 4.13.1"],
     assumptions=["entry points are abstracted to their lock actions and channel-field accesses; races below the lock level (libc, OS, memory model) are not modelled",
                  "real schedules are only sampled (TSan stress with optional yield hook)",
